@@ -8,6 +8,7 @@ import (
 	"os"
 	"path/filepath"
 	"strconv"
+	"strings"
 
 	"slockverif/internal/core"
 	"slockverif/internal/rules"
@@ -47,6 +48,35 @@ func main() {
 	if *dump != "" {
 		rules.Dump(p, *dump)
 		return
+	}
+	if strings.Contains(*prop, ",") {
+		// several properties on one loaded program (used by the seed matrix and
+		// the self-test tools; the registered commands run one property each)
+		worst := 0
+		for _, one := range strings.Split(*prop, ",") {
+			run, ok := rules.Registry[one]
+			if !ok {
+				fmt.Printf("CHECKER-FAILURE unknown property %q\n", one)
+				os.Exit(2)
+			}
+			r := core.NewReport(one, *tier, seed)
+			r.Stats["packages"] = len(p.Pkgs)
+			r.Stats["module_functions"] = len(p.Funcs())
+			func() {
+				defer func() {
+					if e := recover(); e != nil {
+						r.Fail("panic in checker: %v", e)
+					}
+				}()
+				run(p, r)
+			}()
+			rc := r.Finish(*verif)
+			fmt.Printf("RESULT property=%s rc=%d\n", one, rc)
+			if rc > worst {
+				worst = rc
+			}
+		}
+		os.Exit(worst)
 	}
 	run, ok := rules.Registry[*prop]
 	if !ok {
